@@ -42,12 +42,10 @@ def use_repo():
     here = os.path.realpath(os.path.dirname(os.path.dirname(hszinc.__file__)))
     if here != os.path.realpath(REPO):
         raise MachineryError('hszinc imported from %s, expected %s' % (here, REPO))
-    # hszinc's debug print()s (grid_filter.py, zincparser.py) are silenced through a module-global
-    # shadow of `print` -- no change to the repository
-    import hszinc.grid_filter
-    import hszinc.zincparser
-    hszinc.grid_filter.print = _quiet
-    hszinc.zincparser.print = _quiet
+    # (until round 7 hszinc's left-over debug print()s in grid_filter.py and zincparser.py were silenced here through a
+    # module-global shadow of `print`; they were defects -- C12: a side effect of every compilation, C09: another
+    # exception type under a stdout that cannot take the text -- and are repaired.  Nothing is shadowed any more:
+    # C12 logs every write to the standard streams as an event, C09 parses under a stdout that refuses writes.)
     return hszinc
 
 
